@@ -385,7 +385,7 @@ func WorkerMain() {
 	runOne := func(i int) {
 		CurrentIndex = i
 		ctx.Index = i
-		ctx.Rng = NewRand(*seed*0x9E3779B97F4A7C15 + uint64(i)*0xD1B54A32D192ED03 + hashStr(p.ID))
+		ctx.Rng = NewRand(*seed*0x9E3779B97F4A7C15 + uint64(i)*0xD1B54A32D192ED03 + HashStr(p.ID))
 		LogLine(fmt.Sprintf("B %d", i))
 		r := Guard(func() Result { return p.Run(ctx, i) })
 		cases++
@@ -448,7 +448,7 @@ func WorkerMain() {
 	LogLine("S " + string(b))
 }
 
-func hashStr(s string) uint64 {
+func HashStr(s string) uint64 {
 	h := fnv.New64a()
 	h.Write([]byte(s))
 	return h.Sum64()
